@@ -1,11 +1,11 @@
 (* C10 — Every language is recognised from its own identifiers; forcing always wins.
    Model: Model/LangSelect.v (check_public_id with its ONE shared index, the header part of
-   wbxml_parser_parse, wbxml_tables_search_table with its shared index, the DOCTYPE-then-root chain,
+   wbxml_parser_parse, wbxml_tables_search_table (after fix 8a5d5ba: root scan restarts at 0 and compares local names), the DOCTYPE-then-root chain,
    wbxml_fill_header's choice); specification side and per-language checks: Model/LangSelectCheck.v;
    proofs: Proofs/LangSelectProofs.v.  TablesData.main_table is regenerated on every run (29 entries). *)
 From Coq Require Import List NArith String Bool.
 From Wbxml Require Import Model.TablesDefs Model.Tables Model.LangSelect Model.LangSelectCheck Gen.TablesData
-     Proofs.LangSelectProofs.
+     Proofs.LangSelectProofs Proofs.HeaderProofs.
 Import ListNotations.
 Local Open Scope N_scope.
 
@@ -33,6 +33,46 @@ Proof.
   exists l'. split; [|assumption]. rewrite (select_lang_unfold _ _ _ _ _ Hp). now rewrite Hc.
 Qed.
 Print Assumptions C10_textual_id_recognised.
+
+(* The header parser reads back the fields of a serialised header: version byte, numeric id or 00 index, charset (absent
+   in version 1.0; 0 -> meta charset -> UTF-8), string table (four padding NULs when unterminated), body; with the
+   forced-language override of the numeric id. *)
+Theorem C10_header_roundtrip : forall main forced meta version p charset st body,
+  match p with SrcNum n => 1 <= n < 4294967296 | SrcIdx i => i < 4294967296 end ->
+  charset < 4294967296 -> N.of_nat (List.length st) < 4294967296 ->
+  (version =? 0 = false -> charset_known (eff_charset version charset meta) = true) ->
+  parse_header main forced meta (ser_header version p charset st body) =
+  POk (mk_header version
+         (if forced =? WBXML_LANG_UNKNOWN then match p with SrcNum n => n | SrcIdx _ => WBXML_PUBLIC_ID_UNKNOWN end
+          else get_wbxml_publicid main forced)
+         (match p with SrcNum _ => NO_INDEX | SrcIdx i => i end)
+         (eff_charset version charset meta) (padded st) (N.of_nat (List.length st)) body).
+Proof. exact parse_header_of_serialised. Qed.
+Print Assumptions C10_header_roundtrip.
+
+(* ... so, on the bytes: for every language with a numeric id, EVERY document  version, mb(id), [charset], strtbl, body
+   is parsed with that language; and every document  version, 00, mb(|pre|), [charset], strtbl = pre ++ id' ++ NUL, body
+   whose id' equals the textual id without regard to case (US-ASCII / UTF-8 document). *)
+Theorem C10_numeric_document_recognised : forall l, In l main_table -> l_pub_num l <> WBXML_PUBLIC_ID_UNKNOWN ->
+  forall version charset st body meta,
+  charset < 4294967296 -> N.of_nat (List.length st) < 4294967296 ->
+  (version =? 0 = false -> charset_known (eff_charset version charset meta) = true) ->
+  exists l', select_lang main_table WBXML_LANG_UNKNOWN meta (ser_header version (SrcNum (l_pub_num l)) charset st body) = POk l' /\
+             l_id l' = l_id l.
+Proof. exact numeric_document_recognised. Qed.
+Print Assumptions C10_numeric_document_recognised.
+
+Theorem C10_textual_document_recognised : forall l s, In l main_table -> l_pub_text l = Some s ->
+  forall s', strcaseeq s s' = true -> no_nul s' ->
+  forall version charset pre body meta,
+  let st := pre ++ bytes_of_string s' ++ [0] in
+  charset < 4294967296 -> N.of_nat (List.length st) < 4294967296 ->
+  (version =? 0 = false -> charset_known (eff_charset version charset meta) = true) ->
+  (eff_charset version charset meta =? CHARSET_UTF_8) || (eff_charset version charset meta =? CHARSET_US_ASCII) = true ->
+  exists l', select_lang main_table WBXML_LANG_UNKNOWN meta
+               (ser_header version (SrcIdx (N.of_nat (List.length pre))) charset st body) = POk l' /\ l_id l' = l_id l.
+Proof. exact textual_document_recognised. Qed.
+Print Assumptions C10_textual_document_recognised.
 
 (* A registered language forced by the caller is used for every document whose header can be read. *)
 Theorem C10_forced_language_wins : forall f l, f <> WBXML_LANG_UNKNOWN -> get_table main_table f = Some l ->
@@ -96,3 +136,6 @@ Example C10_ex_forced : exists l, select_lang main_table 2401 0 [3; 5; 106; 0; 5
 Proof. eexists. split; vm_compute; reflexivity. Qed.
 Example C10_ex_none : select_lang main_table 0 0 [3; 1; 106; 0; 5] = PErr P_UNKNOWN_PUBLIC_ID.
 Proof. vm_compute. reflexivity. Qed.
+Example C10_ex_ser : ser_header 3 (SrcNum 5) 106 [] [5] = [3; 5; 106; 0; 5] /\
+  ser_header 0 (SrcIdx 0) 106 [65; 0] [5] = [0; 0; 0; 2; 65; 0; 5].
+Proof. split; reflexivity. Qed.
